@@ -135,6 +135,26 @@ def make_replay(ob, rep, c, qualname, schema):
         desc["class_module"] = c["class_module"]
     clause = ob.name.split("/")[0] if ob.kind == "post" else None
     res = replay.run_replay(desc, c, clause)
+    if res.get("verdict") != "violates" and ob.status == "refuted":
+        # the solver's first model constrains only the list positions it happened to instantiate; look for a counter-model of
+        # small shape in which every position satisfies the precondition, and replay that one
+        from pyvc import verify
+
+        for L in (2, 3, 1):
+            try:
+                m2 = verify.small_counter_model(ob, L)
+            except Exception:
+                m2 = None
+            if m2 is None:
+                continue
+            desc2 = replay.extract_state(m2, None, fi, env.get("self"), env, schema, mro_fn)
+            if c.get("class_module"):
+                desc2["class_module"] = c["class_module"]
+            res2 = replay.run_replay(desc2, c, clause)
+            if res2.get("verdict") == "violates":
+                res, desc = res2, desc2
+                res["found_by"] = "counter-model of small shape (all list lengths <= %d, quantified preconditions instantiated on every position)" % L
+                break
     if ob.kind in ("defined", "frame", "loop-step"):
         res["note"] = "obligation kind %s: the replay evaluates all selected ensures clauses and exception behaviour" % ob.kind
     res["prestate"] = desc
